@@ -171,6 +171,8 @@ func C18(ctx *core.Ctx, r *core.Report) {
 	c18GrowByAppendOnly(ctx, r)
 	c18HandlerFollowsContainer(ctx, r)
 	c18MapHandlerIndexDropped(ctx, r)
+	c17LessComparesWholeKey(ctx, r)
+	c17SortSearch(ctx, r)
 	c18LookupBeforeCreate(ctx, r)
 }
 
